@@ -75,7 +75,7 @@ def check(text, ts, opts):
 
 
 def run_case(acc, text, ts, opts, origin):
-    o, cls = gen.bounded_options(text, opts, max_seq=400)
+    o, cls = gen.bounded_options(text, opts, max_seq=200)
     if o is None:
         acc.notes[cls] += 1
         return
@@ -98,6 +98,7 @@ def _shard(arg):
     strat = st.tuples(
         st.one_of(st.tuples(st.just("soup"), gen.soup_strategy(max_tokens=5)),
                   st.tuples(st.just("soup-dates"), gen.soup_strategy(gen.DATE_POOLS, 4)),
+                  st.tuples(st.just("family"), gen.family_strategy()),
                   st.tuples(st.just("mutated-corpus"), gen.mutate_strategy()),
                   st.tuples(st.just("corpus"), st.sampled_from(corpus))),
         gen.ts_strategy(), gen.options_strategy())
@@ -111,7 +112,7 @@ def _shard(arg):
 
 
 def run(ctx):
-    n = 200000 if ctx.thorough else 8000
+    n = 200000 if ctx.thorough else 6400
     shards = 32 if ctx.thorough else 16
     acc = core.pmap_acc(ctx.pid, _shard, [(ctx.pid, ctx.seed, n // shards, i) for i in range(shards)])
     return core.finish(ctx, acc, RULE, assumptions=[
